@@ -90,3 +90,17 @@ Definition check_box (w h d : float) (verts : list (@V3 FNum)) (rust : list (Z *
 Definition check_cyl (r h : float) (steps : Z) (verts : list (@V3 FNum)) (rust : list (Z * Z * Z)) : Z :=
   if negb (tri_list_eqb (cylinder_faces (Z.to_nat steps)) (map zface rust)) then 1%Z
   else if negb (v3_list_close (@cyl_vertices FNum r h (Z.to_nat steps)) verts) then 2%Z else 0%Z.
+
+(* get_patch_boundary_points (patches.rs): the loops reported for the directed boundary edges [m] (successor map) use every edge
+   exactly once as closed cycles, and there are as many loops as the model finds with any pick (here: the first key).
+   0 agree; 11 an edge is missing or repeated or foreign; 12 the number of loops differs *)
+From EG Require Import Model.PatchLoops.
+Definition edge_eqb2 (a b : nat * nat) : bool := Nat.eqb (fst a) (fst b) && Nat.eqb (snd a) (snd b).
+Definition count_edge (e : nat * nat) (l : list (nat * nat)) : nat := length (filter (edge_eqb2 e) l).
+Definition check_patch_loops (m : list (Z * Z)) (loops : list (list Z)) : Z :=
+  let mm := map (fun e => (Z.to_nat (fst e), Z.to_nat (snd e))) m in
+  let ls := map (map Z.to_nat) loops in
+  let got := flat_map cyc_edges ls in
+  if negb (Nat.eqb (length got) (length mm) && forallb (fun e => Nat.eqb (count_edge e got) (count_edge e mm)) mm) then 11%Z
+  else if negb (Nat.eqb (length (boundary_loops_of (fun m => match m with [] => None | (k, _) :: _ => Some k end) mm)) (length ls)) then 12%Z
+  else 0%Z.
